@@ -8,6 +8,7 @@ import (
 	"path/filepath"
 	"regexp"
 	"strings"
+	"syscall"
 )
 
 // C19: command-line contract.
@@ -53,6 +54,39 @@ func (c *CLICase) jobs() []CLIJob {
 		j.Setup = func(dir string) { os.Symlink("in.nas", filepath.Join(dir, "out.bin")) }
 	case "out-hardlink-to-source":
 		j.Setup = func(dir string) { os.Link(filepath.Join(dir, "in.nas"), filepath.Join(dir, "out.bin")) }
+	case "out-devnull":
+		j.NoRead = true
+	case "out-symlink-to-devnull":
+		j.NoRead = true
+		j.Setup = func(dir string) { os.Symlink("/dev/null", filepath.Join(dir, "out.bin")) }
+	case "out-fifo":
+		// the destination is a named pipe with a reader: what arrives at the reader is the image.  The read end is opened
+		// non-blocking before the run and drained after the process has ended (the images are far below the pipe capacity), so
+		// nothing here can wait for gosk.
+		fd := -1
+		j.Setup = func(dir string) {
+			p := filepath.Join(dir, "out.bin")
+			if syscall.Mkfifo(p, 0o644) == nil {
+				fd, _ = syscall.Open(p, syscall.O_RDONLY|syscall.O_NONBLOCK, 0)
+			}
+		}
+		j.Post = func(dir string) {
+			if fd < 0 {
+				return
+			}
+			var got []byte
+			buf := make([]byte, 65536)
+			for {
+				n, err := syscall.Read(fd, buf)
+				if n <= 0 || err != nil {
+					break
+				}
+				got = append(got, buf[:n]...)
+			}
+			syscall.Close(fd)
+			os.WriteFile(filepath.Join(dir, "fifo.got"), got, 0o644)
+		}
+		j.OutFrom = "fifo.got"
 	case "out-symlink-to-other":
 		j.Setup = func(dir string) {
 			os.WriteFile(filepath.Join(dir, "real.bin"), []byte("old contents, longer than the image"), 0o644)
@@ -249,6 +283,10 @@ func init() {
 		add(&CLICase{What: "args", Src: good, Setup: "out-symlink-to-source", Args: []string{"in.nas", "out.bin"}, WantExit: 0, Ref: goodImg, Cell_: "argv2 output-symlink-to-source"})
 		add(&CLICase{What: "args", Src: good, Setup: "out-hardlink-to-source", Args: []string{"in.nas", "out.bin"}, WantExit: 0, Ref: goodImg, Cell_: "argv2 output-hardlink-to-source"})
 		add(&CLICase{What: "args", Src: good, Setup: "out-symlink-to-other", Args: []string{"in.nas", "out.bin"}, WantExit: 0, Ref: goodImg, Cell_: "argv2 output-symlink-to-file"})
+		// destinations that exist and are not regular files
+		add(&CLICase{What: "args", Src: good, Setup: "out-devnull", Args: []string{"in.nas", "/dev/null"}, WantExit: 0, Cell_: "argv2 output-is-dev-null"})
+		add(&CLICase{What: "args", Src: good, Setup: "out-symlink-to-devnull", Args: []string{"in.nas", "out.bin"}, WantExit: 0, Cell_: "argv2 output-symlink-to-dev-null"})
+		add(&CLICase{What: "args", Src: good, Setup: "out-fifo", Args: []string{"in.nas", "out.bin"}, WantExit: 0, Ref: goodImg, Cell_: "argv2 output-is-fifo"})
 		add(&CLICase{What: "args", Src: good, Args: []string{"./in.nas", "./out.bin"}, WantExit: 0, Ref: goodImg, Cell_: "argv2 dot-slash-paths"})
 		add(&CLICase{What: "args", Src: good, Args: []string{"-d", "in.nas", "out.bin"}, WantExit: 0, Ref: goodImg, Cell_: "argv3 -d"})
 		add(&CLICase{What: "args", Args: []string{"-d"}, WantExit: 16, Cell_: "argv1 -d"})
@@ -260,6 +298,8 @@ func init() {
 		add(&CLICase{What: "args", Src: coffSrc, Setup: "outdir", Args: []string{"in.nas", "out.bin"}, WantExit: 17, Cell_: "argv2 coff output-is-directory"})
 		add(&CLICase{What: "args", Src: coffSrc, Args: []string{"in.nas", ""}, WantExit: 17, Cell_: "argv2 coff empty-output-name"})
 		add(&CLICase{What: "args", Src: coffSrc, Args: []string{"in.nas"}, WantExit: 16, Cell_: "argv1 coff source-only"})
+		add(&CLICase{What: "args", Src: coffSrc, Setup: "out-devnull", Args: []string{"in.nas", "/dev/null"}, WantExit: 0, Cell_: "argv2 coff output-is-dev-null"})
+		add(&CLICase{What: "args", Src: coffSrc, Setup: "out-fifo", Args: []string{"in.nas", "out.bin"}, WantExit: 0, Cell_: "argv2 coff output-is-fifo"})
 		add(&CLICase{What: "same-as-api", Src: coffSrc, Prefill: bytes.Repeat([]byte{0x55}, 4000), Cell_: "same-as-api coff destination-prefilled"})
 		add(&CLICase{What: "failing-run", Src: []byte("[FORMAT \"WCOFF\"]\n[BITS 32]\n\tGLOBAL _f\n_f:\n\tJMP {{\n"), Prefill: bytes.Repeat([]byte("OLD!"), 300), WantExit: -1, Cell_: "failing coff pass2-template-error prefilled"})
 		// --- programs through the CLI versus the in-process API
